@@ -9,6 +9,9 @@ verus! {
 pub struct Key { pub id: u64 }
 #[derive(PartialEq, Eq, PartialOrd, Ord, Clone, Copy)]
 pub struct Formatter { pub id: u8 }
+impl Default for InterpolationKeys {
+    fn default() -> (r: InterpolationKeys) ensures r.components@ == Set::<Key>::empty(), r.variables@ == Map::<Key, VarInfo>::empty() { InterpolationKeys { components: BTreeSet::new(), variables: BTreeMap::new() } }
+}
 // T1: copied from utils/key.rs (derive list reduced)
 //@@ keypath_struct
 impl Default for KeyPath {
@@ -36,16 +39,46 @@ pub assume_specification<T>[ <Box<T> as From<T>>::from ](t: T) -> (b: Box<T>)
 pub assume_specification<T: Default>[ std::mem::take::<T> ](d: &mut T) -> (r: T)
     ensures r == *old(d);
 
-pub struct InterpolationKeys {
-    components: BTreeSet<Key>,
-    variables: BTreeMap<Key, VarInfo>,
-}
+// T1: copied from locale.rs (fields made pub for the spec functions)
+//@@ interpolation_keys_struct
+//@@ literal_type_enum
+//@@ interpol_or_lit_enum
 
+// A3 (assumed std contract): `m.entry(k).or_default()` on a BTreeMap<Key, VarInfo> yields the entry of k
+// -- the stored one, or a fresh default (no formatter, no count type) -- and whatever is written
+// through the returned reference is what the map holds under k afterwards; nothing else changes.
+pub open spec fn empty_info(v: VarInfo) -> bool { v.formatters@ == Set::<Formatter>::empty() && v.range_count is None }
+#[verifier::external_body]
+pub fn btree_entry_or_default(m: &mut BTreeMap<Key, VarInfo>, k: Key) -> (r: &mut VarInfo)
+    ensures
+        old(m)@.contains_key(k) ==> *r == old(m)@[k],
+        !old(m)@.contains_key(k) ==> empty_info(*r),
+        final(m)@ == old(m)@.insert(k, *final(r)),
+{ unimplemented!() }
+
+/// the count type recorded for a variable so far (None when the variable is unknown)
+pub open spec fn count_type(m: Map<Key, VarInfo>, k: Key) -> Option<RangeOrPlural> {
+    if m.contains_key(k) { m[k].range_count } else { None }
+}
+pub open spec fn formatters_of(m: Map<Key, VarInfo>, k: Key) -> Set<Formatter> {
+    if m.contains_key(k) { m[k].formatters@ } else { Set::empty() }
+}
 pub open spec fn is_range(t: Option<RangeOrPlural>) -> bool { t matches Some(RangeOrPlural::Range(_)) }
 pub open spec fn is_plural(t: Option<RangeOrPlural>) -> bool { t matches Some(RangeOrPlural::Plural) }
+/// the variables / components a caller must supply according to an accumulator
+pub open spec fn var_set(k: InterpolOrLit) -> Set<Key> { match k { InterpolOrLit::Interpol(i) => i.variables@.dom(), InterpolOrLit::Lit(_) => Set::empty() } }
+pub open spec fn comp_set(k: InterpolOrLit) -> Set<Key> { match k { InterpolOrLit::Interpol(i) => i.components@, InterpolOrLit::Lit(_) => Set::empty() } }
 
 impl InterpolationKeys {
+//@@ push_var
+
+//@@ push_comp
+
 //@@ push_count
+}
+
+impl InterpolOrLit {
+//@@ get_interpol_keys_mut
 }
 
 } // verus!
